@@ -365,7 +365,12 @@ func runC13(c *fw.Case) (o fw.Outcome) {
 			switch u {
 			case "amf", "srcamf", "ran", "psi", "psis":
 				cands = append(cands, u)
+			case "gnb":
+				cands = append(cands, "plmn", "gnbbits")
 			}
+		}
+		if sp.name == "Build.NGSetupRequest" {
+			cands = append(cands, "plmn")
 		}
 		if len(cands) > 0 {
 			a.badArg = cands[r.Intn(len(cands))]
@@ -378,6 +383,11 @@ func runC13(c *fw.Case) (o fw.Outcome) {
 				a.psi = pick(r, int64(256), 257, -1, 300, 1<<16, 9999)
 			case "psis":
 				a.psis[r.Intn(len(a.psis))] = pick(r, int64(256), -1, 300, 70000)
+			case "plmn": // PLMNIdentity is OCTET STRING (SIZE(3))
+				a.plmn = rbytes(r, pick(r, 0, 1, 2, 4, 5, 6))
+			case "gnbbits": // gNB-ID is BIT STRING (SIZE(22..32))
+				a.gnbBits = uint64(pick(r, 0, 1, 21, 33, 40))
+				a.gnbID = rbytes(r, 5)
 			}
 		}
 	}
@@ -389,7 +399,11 @@ func runC13(c *fw.Case) (o fw.Outcome) {
 	o.Nontrivial = true
 
 	// NG Setup announces the PLMN (as in the emulator), then the builder under test
-	tp.BuildNGSetupRequest(a.plmn)
+	announced := a.plmn
+	if a.badArg == "plmn" {
+		announced = rbytes(r, 3)
+	}
+	tp.BuildNGSetupRequest(announced)
 	var pduIn ngapType.NGAPPDU
 	var enc []byte
 	var err error
@@ -413,7 +427,7 @@ func runC13(c *fw.Case) (o fw.Outcome) {
 	if a.badArg != "" {
 		o.Count("out_of_range_calls", 1)
 		if err == nil {
-			o.Fail("not-refused:"+sp.name+":"+a.badArg, "%s accepted an out-of-range %s (amf=%d ran=%d psi=%d psis=%v) and produced %x", sp.name, a.badArg, a.amf, a.ran, a.psi, a.psis, clip(enc, 100))
+			o.Fail("not-refused:"+sp.name+":"+a.badArg, "%s accepted an out-of-range %s (amf=%d ran=%d psi=%d psis=%v plmn=%x gnb bits=%d) and produced %x", sp.name, a.badArg, a.amf, a.ran, a.psi, a.psis, a.plmn, a.gnbBits, clip(enc, 100))
 		}
 		return
 	}
